@@ -48,6 +48,7 @@ class Ev:
 
     def __init__(self, kinds, bound):
         self.kinds, self.bound, self.vars, self.axioms = kinds, set(bound), {}, []
+        self.uses_is = False
 
     def var(self, name, sort):
         key = (name, sort)
@@ -143,6 +144,18 @@ class Ev:
             return k, v
         if isinstance(e, ast.Compare):
             return self.compare(e)
+        if isinstance(e, ast.BinOp) and isinstance(e.op, ast.Add):
+            k1, l = self.expr(e.left)
+            k2, r = self.expr(e.right)
+            k = self.seq(k1, k2)
+            k = self.seq(k, z3.If(z3.Or(V.is_N(l), V.is_N(r)), TYPE, NONE))  # None + x raises TypeError
+            return k, V.I(num(l) + num(r))  # bool + int is an int
+        if isinstance(e, ast.IfExp):
+            kt, t = self.expr(e.test)
+            kb, b = self.expr(e.body)
+            ko, o = self.expr(e.orelse)
+            k = self.seq(kt, z3.If(truth(t), kb, ko))
+            return k, z3.If(truth(t), b, o)
         raise Untranslatable(ast.dump(e))
 
     def compare(self, e):
@@ -188,20 +201,11 @@ class Ev:
         return k, V.B(res)
 
     def identity(self, ln, lv, rn, rv):
-        """`is`: decided for the singletons True / False / None (an int is never a bool singleton); between two
-        other values an uninterpreted relation constrained by: same name => identical, identical => same type and
-        equal."""
-        def singleton(n):
-            return isinstance(n, ast.Constant) and (n.value is None or isinstance(n.value, bool))
-
-        if singleton(ln) or singleton(rn):
-            return lv == rv  # structural: B(True) is True, I(1) is not True, N is None
-        if isinstance(ln, ast.Name) and isinstance(rn, ast.Name) and ln.id == rn.id:
-            return z3.BoolVal(True)
-        key = "is|" + "|".join(sorted([ast.unparse(ln), ast.unparse(rn)]))
-        r = self.var(key, "b")
-        self.axioms.append(z3.Implies(r, lv == rv))
-        return r
+        """`is`: True / False / None are singletons, and CPython caches the ints in [-5, 256], so within that range
+        identity coincides with same-type equality (I(1) is not B(True)).  The driver keeps int-valued names in the
+        cached range whenever a program uses `is` (uses_is)."""
+        self.uses_is = True
+        return lv == rv
 
 
 def names_of(tree):
